@@ -549,6 +549,118 @@ func c17Facts(sb *strings.Builder) {
 	}
 }
 
+// c20Facts: resolvconf.update — paths, and the shape of the error path.
+func c20Facts(sb *strings.Builder) {
+	const rc = "lib/resolvconf/resolvconf.go"
+	str := func(name, v, def string, ok bool) {
+		if !ok {
+			missing = append(missing, name)
+			v = def
+		}
+		fmt.Fprintf(sb, "Definition %s : list N := %s.\n", name, strBytes(v))
+	}
+	dirs := strCallArgs(rc, "update", "TempFile", 0)
+	pats := strCallArgs(rc, "update", "TempFile", 1)
+	tgts := strCallArgs(rc, "update", "Rename", 1)
+	okd := len(dirs) == 1 && len(pats) == 1 && len(tgts) == 1
+	dir, pat, tgt := "/etc", "resolvconf-*.tmp", "/etc/resolv.conf"
+	if okd {
+		dir, pat, tgt = dirs[0], pats[0], tgts[0]
+	}
+	// os.CreateTemp: the random string replaces the last "*" (appended when there is none)
+	pre, suf := pat, ""
+	if i := strings.LastIndex(pat, "*"); i >= 0 {
+		pre, suf = pat[:i], pat[i+1:]
+	}
+	// the target lives in the directory of the temp file (same file system: rename cannot be a copy)
+	same := strings.HasPrefix(tgt, strings.TrimRight(dir, "/")+"/") && !strings.Contains(tgt[len(strings.TrimRight(dir, "/"))+1:], "/")
+	base := tgt
+	if same {
+		base = tgt[len(strings.TrimRight(dir, "/"))+1:]
+	}
+	str("gf_resolv_dir", dir, "/etc", okd)
+	str("gf_resolv_tmp_prefix", pre, "resolvconf-", okd)
+	str("gf_resolv_tmp_suffix", suf, ".tmp", okd)
+	str("gf_resolv_target_name", base, "resolv.conf", okd)
+	fmt.Fprintf(sb, "Definition gf_resolv_same_dir : bool := %v.\n", okd && same && !strings.ContainsAny(pat, "/"))
+
+	// the error path: the result is named err; exactly one defer, a closure whose body is
+	//   if err != nil { os.Remove(name) }
+	// with name := tmpfh.Name() of the TempFile result, and Chmod/Rename are applied to the same name
+	cleanup, sameName, noOther := false, false, false
+	if fd := findFunc(rc, "update"); fd != nil && fd.Body != nil {
+		named := fd.Type.Results != nil && len(fd.Type.Results.List) == 1 && len(fd.Type.Results.List[0].Names) == 1 &&
+			fd.Type.Results.List[0].Names[0].Name == "err"
+		var defers []*ast.DeferStmt
+		removes, removesInDefer := 0, 0
+		tmpVar, nameVar := "", ""
+		ast.Inspect(fd, func(n ast.Node) bool {
+			switch x := n.(type) {
+			case *ast.DeferStmt:
+				defers = append(defers, x)
+			case *ast.AssignStmt:
+				if len(x.Rhs) == 1 {
+					if c, ok := x.Rhs[0].(*ast.CallExpr); ok {
+						fn := selName(c.Fun)
+						if strings.HasSuffix(fn, ".TempFile") && len(x.Lhs) == 2 {
+							if id, ok := x.Lhs[0].(*ast.Ident); ok {
+								tmpVar = id.Name
+							}
+						}
+						if strings.HasSuffix(fn, ".Name") && len(x.Lhs) == 1 && len(c.Args) == 0 {
+							if id, ok := x.Lhs[0].(*ast.Ident); ok && tmpVar != "" && fn == tmpVar+".Name" {
+								nameVar = id.Name
+							}
+						}
+					}
+				}
+			case *ast.CallExpr:
+				if strings.HasSuffix(selName(x.Fun), ".Remove") || strings.HasSuffix(selName(x.Fun), ".RemoveAll") {
+					removes++
+				}
+			}
+			return true
+		})
+		isName := func(e ast.Expr) bool { id, ok := e.(*ast.Ident); return ok && nameVar != "" && id.Name == nameVar }
+		if len(defers) == 1 {
+			if fl, ok := defers[0].Call.Fun.(*ast.FuncLit); ok && len(defers[0].Call.Args) == 0 && len(fl.Body.List) == 1 {
+				if is, ok := fl.Body.List[0].(*ast.IfStmt); ok && is.Init == nil && is.Else == nil && len(is.Body.List) == 1 {
+					if be, ok := is.Cond.(*ast.BinaryExpr); ok && be.Op == token.NEQ {
+						l, lok := be.X.(*ast.Ident)
+						r, rok := be.Y.(*ast.Ident)
+						if es, ok := is.Body.List[0].(*ast.ExprStmt); ok && lok && rok && l.Name == "err" && r.Name == "nil" {
+							if c, ok := es.X.(*ast.CallExpr); ok && selName(c.Fun) == "os.Remove" && len(c.Args) == 1 && isName(c.Args[0]) {
+								cleanup = named
+								removesInDefer = 1
+							}
+						}
+					}
+				}
+			}
+		}
+		noOther = removes == removesInDefer
+		// Chmod and Rename act on the temp name; their calls are outside the closure
+		nChmod, nRename := 0, 0
+		good := true
+		ast.Inspect(fd, func(n ast.Node) bool {
+			if c, ok := n.(*ast.CallExpr); ok {
+				switch selName(c.Fun) {
+				case "os.Chmod":
+					nChmod++
+					good = good && len(c.Args) == 2 && isName(c.Args[0])
+				case "os.Rename":
+					nRename++
+					good = good && len(c.Args) == 2 && isName(c.Args[0])
+				}
+			}
+			return true
+		})
+		sameName = good && nChmod == 1 && nRename == 1
+	}
+	fmt.Fprintf(sb, "Definition gf_resolv_cleanup_on_error : bool := %v.\n", cleanup && noOther)
+	fmt.Fprintf(sb, "Definition gf_resolv_ops_on_tmp_name : bool := %v.\n", sameName)
+}
+
 // ---- structural facts ----
 
 // every exported method of *IPDB starts with Lock(); defer Unlock()
@@ -847,6 +959,7 @@ func main() {
 		sb.WriteString("Definition gf_resolv_mode : N := 420.\n")
 	}
 	c17Facts(&sb)
+	c20Facts(&sb)
 	sort.Strings(missing)
 	fmt.Fprintf(&sb, "\n(* sites not located in the current source (last known value used): %s *)\n", strings.Join(missing, " "))
 	fmt.Fprintf(&sb, "Definition gf_missing_count : N := %d.\n", len(missing))
